@@ -21,7 +21,7 @@ func init() {
 		Title: "Interrupts and abnormal exits: prompt delivery, clean unwind, reusable runtime",
 		Rule: fmt.Sprintf("programs = every nesting (quick: depth 1, thorough: depth <= 2; throw family: depth <= 2 in both tiers) of the %d context wrappers around each body; ", len(wrappers)) +
 			"one case = (program, injection): interrupt families inject at EVERY evaluation step k of the program (non-terminating bodies: k <= 60 quick, k <= 200 / 100 at depth 1 / 2 thorough), " +
-			"hostpanic at every tick call x 4 payloads, throw/limits have one case per program / grid point; limits-entry = 23 Go-side entry routes at rest x L 0..5 x d around the threshold, each followed by rest-state and threshold-unmoved probes; unbuffered = capacity-0 channel with a sender goroutine parked in the send before Run and at every step k; entry = 11 API entry routes x 4 channel-installation times x {pre-queued, every step k} x {panic, record}. Each case runs on a fresh runtime " +
+			"hostpanic at every tick call x 4 payloads, throw/limits have one case per program / grid point; limits-entry = 23 Go-side entry routes at rest x L 0..5 x d around the threshold, each followed by rest-state and threshold-unmoved probes; headroom = 25 parse-failure / eval-abort histories x L x {1,2,L} repetitions x {Run, Otto.Eval}, each followed by the remaining-depth vector on the runtime and on a Copy (must equal a fresh runtime's); every follow-up program of the other families also ends with a one-run headroom probe under limit 8; unbuffered = capacity-0 channel with a sender goroutine parked in the send before Run and at every step k; entry = 11 API entry routes x 4 channel-installation times x {pre-queued, every step k} x {panic, record}. Each case runs on a fresh runtime " +
 			"(plus a follow-up program and a second injected run on the same runtime). A case is non-trivial when the injection lands while the " +
 			"runtime is not at global level (a function/native frame, a pending label or a try/catch block is active at step k) or, for the " +
 			"throw/hostpanic/limits families, when the abnormal exit crosses at least one wrapper frame.",
@@ -29,6 +29,7 @@ func init() {
 			// cheapest first, so that a run that hits its time budget has completed the small families
 			{Name: "limits", Run: runLimits},
 			{Name: "limits-entry", Run: runLimitsEntry},
+			{Name: "headroom", Run: runHeadroomFamily},
 			{Name: "entry", Run: runEntryFamily},
 			{Name: "unbuffered", Run: runUnbufferedFamily},
 			{Name: "throw", Run: runThrow},
@@ -38,7 +39,7 @@ func init() {
 		},
 		Assumptions: []string{
 			"the verif-tagged step hook fires at each of the three interrupt polling points immediately before the poll (hooks.go, add-only)",
-			"VerifRestState reads rt.scope / rt.labels faithfully",
+			"VerifRestState / VerifEvalDepth read rt.scope, rt.labels and rt.evalDepth faithfully; at rest all three are 0 (also on a Copy)",
 			"entry family: the channel that must be polled is the one in the runtime's Interrupt field while the evaluator runs, whichever API entry point was used and whenever it was installed, replaced or cleared",
 			"global state is observed through Otto.Get / Object.Get on a fixed list of globals that the generated programs use exclusively (no var, no other names)",
 			"the wrapper model (ES5 12.14 try/catch/finally propagation, 12.10 with, 10.4.2 eval code, 15.3.2.1 Function) predicts markers only; loop counters and function objects are compared against the reference run",
@@ -388,7 +389,7 @@ func normOutcome(s string) string {
 
 // --------------------------- (iv)/(v) throw and stack overflow at the body --
 
-var throwBodies = []body{bodyAsg, bodyThrowE, bodyThrowP, bodyRec}
+var throwBodies = []body{bodyAsg, bodyThrowE, bodyThrowP, bodyEvalBad, bodyRec}
 
 func runThrow(r *engine.Run) {
 	forPrograms(r, throwBodies, false, false, func(p *prog, ref *refRun) {
